@@ -197,6 +197,15 @@ def run(c: Check):
             c.violation("C01:cache-state-unsound-after-requests" + identgen.selfmark_suffix(fin_cases[i]["desc"], pairs, fin_cases[i]["export_after"]["nodes"]),
                         "the state a request history ends in breaks the invariant of the cache theorems: " + identgen.diag_text(pairs),
                         dict(desc=fin_cases[i]["desc"], histories=[fin_cases[i]["ops"]], diagnosis=pairs))
+    # directed probe outside the model: the type identifier is the documented function of the class declaration
+    from vcommon import EXPECTED_TID
+    pr3 = run_impl("drive_typeprobe.py", {}, timeout=300)
+    c.count("probe:type-identifiers")
+    wrong = {k: [pr3["tid"].get(k), v] for k, v in EXPECTED_TID.items() if pr3["tid"].get(k) != v}
+    if wrong:
+        c.violation("C01:type-identifier-derivation", "a class does not get the type identifier the documented rules give it "
+                    "(got, expected): " + json.dumps(wrong)[:300], dict(desc=dict(nodes=[], actions=[]), histories=[],
+                                                                        probe="harness/drive_typeprobe.py", got=pr3))
     c.level_assumptions = [
         "SHA-256 is a parameter H of every theorem; the Gallina SHA-256 used to run the model is validated against hashlib by the correspondence itself",
         "CPython's struct.pack, str.encode('utf-8'), sorted behave as documented; class tables (flags, defaults) are read off the real ObjectType/Argument objects",
